@@ -94,28 +94,33 @@ def decodeLossy (bs : Bytes) : List Nat := decodeAux .idle bs
 
 namespace Code
 
-/-- The `while i < class_end` loop over the class body `pattern_chars[start_idx..class_end]`
-    (the list is `pattern_chars[i..class_end]`; the first argument counts positions still to be
-    skipped after a range, `i += 3`).  `x-y` is a range only if `y` is still inside the body
-    (`i + 2 < class_end`). -/
-def classMatchAux (c : Nat) : Nat → List Nat → Bool
-  | _, [] => false
-  | skip + 1, _ :: rest => classMatchAux c skip rest
-  | 0, x :: rest =>
-    if 2 ≤ rest.length ∧ rest.head? = some 45 then          -- `i + 2 < class_end && pattern_chars[i+1] == '-'`
-      (if x ≤ c ∧ c ≤ rest.getD 1 0 then true else classMatchAux c 2 rest)
-    else (if c = x then true else classMatchAux c 0 rest)
+/-- Where the walk through a class stands (the `while i < pattern_chars.len()` loop of the `'['`
+    arm, Redis's `stringmatchlen`); the list argument of `classWalk` is `pattern_chars[i..]`. -/
+inductive CState where
+  /-- at a fresh member position -/
+  | member
+  /-- after a `\\` that has a successor (`i + 1 < len`): the current character is the member -/
+  | esc
+  /-- at the `-` of a range that began with `lo` (`i + 2 < len && pattern_chars[i+1] == '-'`) -/
+  | dash (lo : Nat)
+  /-- at the other bound of that range -/
+  | hi (lo : Nat)
+  deriving Repr, DecidableEq
 
-def classMatch (c : Nat) (body : List Nat) : Bool := classMatchAux c 0 body
-
-/-- `pattern_chars[p_idx..].iter().position(|&c| c == ']')`, as (chars before, chars after). -/
-def splitClose : List Nat → Option (List Nat × List Nat)
-  | [] => none
-  | x :: r =>
-    if x = 93 then some ([], r)
-    else match splitClose r with
-      | none => none
-      | some (b, a) => some (x :: b, a)
+/-- The class is walked member by member: `\x` is the member `x` (also `\]`), `]` ends the class,
+    `x-y` is a range with ordered bounds whenever two more characters follow (also `a-]`), a class
+    that is not closed runs to the end of the pattern.  Returns `matched` and the pattern after
+    the class (`pattern_chars[i..]` when the loop is left). -/
+def classWalk (c : Nat) : CState → Bool → List Nat → Bool × List Nat
+  | _, m, [] => (m, [])
+  | .member, m, x :: r =>
+    if x = 92 ∧ r ≠ [] then classWalk c .esc m r
+    else if x = 93 then (m, r)
+    else if 2 ≤ r.length ∧ r.head? = some 45 then classWalk c (.dash x) m r
+    else classWalk c .member (m || x == c) r
+  | .esc, m, x :: r => classWalk c .member (m || x == c) r
+  | .dash lo, m, _ :: r => classWalk c (.hi lo) m r
+  | .hi lo, m, x :: r => classWalk c .member (m || (decide (min lo x ≤ c) && decide (c ≤ max lo x))) r
 
 /-- Outcome of one pass through the `match pattern_chars[p_idx]` of the main loop. -/
 inductive GStep where
@@ -129,12 +134,10 @@ inductive GStep where
 
 /-- The `'['` arm; `q` is the pattern after the bracket. -/
 def classStep (q : List Nat) (c : Nat) : GStep :=
-  match splitClose q with
-  | none => .fail                                  -- no ']' : the arm does nothing
-  | some (cls, rest) =>
-    let negate := cls.head? == some 94              -- `p_idx + 1 < class_end && pattern_chars[p_idx+1] == '^'`
-    let body := if negate then cls.tail else cls
-    if classMatch c body != negate then .adv rest else .fail
+  let negate := q.head? == some 94                 -- `i < len && pattern_chars[i] == '^'`
+  let body := if negate then q.tail else q
+  let w := classWalk c .member false body
+  if w.1 != negate then .adv w.2 else .fail         -- `matched != negate`: `p_idx = i`
 
 def globStep (p : List Nat) (c : Nat) : GStep :=
   match p with
@@ -182,11 +185,12 @@ end Code
 
 /-! ## What a glob pattern means (the filter semantics C19 refers to)
 
-  Redis matches MATCH patterns against the *bytes* of the key: `?` one byte, `*` any run,
-  `[...]` / `[^...]` a class of bytes and ranges, `\x` the byte `x`.  The pattern is first cut
-  into tokens; patterns outside the fragment on which all glob dialects agree (unclosed `[`,
-  `\` inside a class, a range whose upper end is the closing bracket, a reversed range) have no
-  prescribed meaning here (`tokenize = none`) and are compared against the code model only. -/
+  Redis (`stringmatchlen`) matches MATCH patterns against the *bytes* of the key: `?` one byte,
+  `*` any run, `[...]` / `[^...]` a class of bytes and ranges, `\x` the byte `x`.  The pattern is
+  first cut into tokens — every pattern has a meaning: inside a class `\x` is the member `x`, a
+  range's bounds are ordered, `x-y` is a range whenever two more characters follow, and a class
+  without closing bracket runs to the end of the pattern — and the tokens are matched by the
+  textbook recursive matcher. -/
 
 namespace Spec
 
@@ -198,45 +202,43 @@ inductive Tok where
   deriving Repr, DecidableEq
 
 /-- Tokenizer state: outside a class; after a `\\` outside a class; inside a class (`first`:
-    nothing read yet, so `^` negates); inside a class after a character `lo` that may start a
-    range; inside a class after `lo-`. -/
+    nothing read yet, so `^` negates); inside a class after a `\\`; at the `-` of a range that
+    began with `lo`; at the other bound of that range. -/
 inductive TState where
   | out
   | esc
   | cls (first neg : Bool) (acc : List (Nat × Nat))
-  | clsLo (neg : Bool) (acc : List (Nat × Nat)) (lo : Nat)
+  | clsEsc (neg : Bool) (acc : List (Nat × Nat))
   | clsDash (neg : Bool) (acc : List (Nat × Nat)) (lo : Nat)
+  | clsHi (neg : Bool) (acc : List (Nat × Nat)) (lo : Nat)
   deriving Repr, DecidableEq
 
-/-- Cut a pattern into tokens, one character at a time; `none` outside the agreed fragment. -/
-def tokenizeAux : TState → List Nat → Option (List Tok)
-  | .out, [] => some []
+/-- Cut a pattern into tokens, one character at a time.  Total: every pattern tokenises. -/
+def tokenizeAux : TState → List Nat → List Tok
+  | .out, [] => []
+  | .esc, [] => [Tok.lit 92]                             -- a trailing `\\` is a literal backslash
+  | .cls _ neg acc, [] => [Tok.cls neg acc.reverse]      -- a class that is not closed runs to the end
+  | .clsEsc neg acc, [] => [Tok.cls neg acc.reverse]
+  | .clsDash neg acc _, [] => [Tok.cls neg acc.reverse]
+  | .clsHi neg acc _, [] => [Tok.cls neg acc.reverse]
   | .out, x :: r =>
-    if x = 42 then (tokenizeAux .out r).map (Tok.star :: ·)
-    else if x = 63 then (tokenizeAux .out r).map (Tok.any :: ·)
+    if x = 42 then Tok.star :: tokenizeAux .out r
+    else if x = 63 then Tok.any :: tokenizeAux .out r
     else if x = 92 then tokenizeAux .esc r
     else if x = 91 then tokenizeAux (.cls true false []) r
-    else (tokenizeAux .out r).map (Tok.lit x :: ·)
-  | .esc, [] => some [Tok.lit 92]                        -- a trailing `\\` is a literal backslash
-  | .esc, y :: r => (tokenizeAux .out r).map (Tok.lit y :: ·)
-  | .cls _ _ _, [] => none                               -- unclosed class
+    else Tok.lit x :: tokenizeAux .out r
+  | .esc, y :: r => Tok.lit y :: tokenizeAux .out r
   | .cls first neg acc, x :: r =>
     if first ∧ x = 94 then tokenizeAux (.cls false true []) r
-    else if x = 93 then (tokenizeAux .out r).map (Tok.cls neg acc.reverse :: ·)
-    else if x = 92 then none                             -- `\\` inside a class
-    else tokenizeAux (.clsLo neg acc x) r
-  | .clsLo _ _ _, [] => none
-  | .clsLo neg acc lo, x :: r =>
-    if x = 45 then tokenizeAux (.clsDash neg acc lo) r
-    else if x = 93 then (tokenizeAux .out r).map (Tok.cls neg ((lo, lo) :: acc).reverse :: ·)
-    else if x = 92 then none
-    else tokenizeAux (.clsLo neg ((lo, lo) :: acc) x) r
-  | .clsDash _ _ _, [] => none
-  | .clsDash neg acc lo, hi :: r =>
-    if hi = 93 ∨ hi = 92 ∨ hi < lo then none             -- `[a-]`, `[a-\\`, reversed range
-    else tokenizeAux (.cls false neg ((lo, hi) :: acc)) r
+    else if x = 92 ∧ r ≠ [] then tokenizeAux (.clsEsc neg acc) r
+    else if x = 93 then Tok.cls neg acc.reverse :: tokenizeAux .out r
+    else if 2 ≤ r.length ∧ r.head? = some 45 then tokenizeAux (.clsDash neg acc x) r
+    else tokenizeAux (.cls false neg ((x, x) :: acc)) r
+  | .clsEsc neg acc, x :: r => tokenizeAux (.cls false neg ((x, x) :: acc)) r
+  | .clsDash neg acc lo, _ :: r => tokenizeAux (.clsHi neg acc lo) r
+  | .clsHi neg acc lo, x :: r => tokenizeAux (.cls false neg ((min lo x, max lo x) :: acc)) r
 
-def tokenize (p : List Nat) : Option (List Tok) := tokenizeAux .out p
+def tokenize (p : List Nat) : List Tok := tokenizeAux .out p
 
 def tokAccepts : Tok → Nat → Bool
   | .lit x, c => x == c
@@ -255,9 +257,8 @@ def matchToks : List Tok → List Nat → Bool
   | _ :: _, [] => false
   | tk :: ps, c :: t => tokAccepts tk c && matchToks ps t
 
-/-- The prescribed meaning of `MATCH pat` for a key, over bytes; `none` = pattern outside the
-    agreed fragment. -/
-def matchBytes (pat key : Bytes) : Option Bool := (tokenize pat).map (matchToks · key)
+/-- The prescribed meaning of `MATCH pat` for a key, over bytes. -/
+def matchBytes (pat key : Bytes) : Bool := matchToks (tokenize pat) key
 
 end Spec
 
